@@ -361,7 +361,9 @@ func (f *file) Stat() (hackpadfs.FileInfo, error) {
 	}
 	if !f.Mode().IsDir() {
 		// load the contents, so the reported size is the file's current size and not the size when it was opened
-		_, _ = f.Data()
+		if _, err := f.Data(); err != nil {
+			return nil, &hackpadfs.PathError{Op: "stat", Path: f.path, Err: err}
+		}
 	}
 	return fileInfo{Record: &f.runOnceFileRecord, Path: f.path}, nil
 }
